@@ -56,7 +56,7 @@ int main(int argc, char** argv) {
     R.init(argc, argv, "C18", "C18_history"); quiet();
     R.rule = "state = call history replayed on a fresh real ElectricField, deduplicated by the FNV hash of all internal buffers; every edge is executed on the implementation; "
              "evaluations = edges executed; distinct = canonical states";
-    const bool T = R.thorough();
+    const bool T = true /* the wide lattices run in both tiers */; const bool D = R.thorough(); (void)D;
     const unsigned maxdepth = T ? 14 : 10;
     std::vector<Cfg> cfgs;
     for (unsigned N : (T ? std::vector<unsigned>{16, 24, 30, 32, 33, 37, 64, 75, 128} : std::vector<unsigned>{16, 30, 32, 33, 64})) {
